@@ -267,7 +267,43 @@ fn case(ctx: &Ctx, rep: &mut Report, case: u64, g: &mut Sm64, kind: Kind) {
     if case % 4 == 0 {
         let expect = if kind == Kind::Nuts { nuts_shifted(&cfg) } else { Ok(base.clone()) };
         rep.eval();
-        match (expect, run_once(&cfg, true)) {
+        // progress mode under two more schedule conditions: (a) another sampler of the same kind is
+        // inside run_progress at the same time, (b) the call comes from inside a rayon pool with
+        // fewer threads than chains
+        let variant = (case / 4) % 3;
+        let prog = match variant {
+            0 => run_once(&cfg, true),
+            1 => {
+                let stop2 = Arc::new(AtomicBool::new(false));
+                let (st, c2) = (stop2.clone(), cfg.clone());
+                let started = Arc::new(AtomicBool::new(false));
+                let started2 = started.clone();
+                let h = std::thread::spawn(move || {
+                    let mut c = c2;
+                    c.seed = c.seed.wrapping_add(77);
+                    c.n_collect = 40;
+                    while !st.load(Ordering::Relaxed) {
+                        started2.store(true, Ordering::Relaxed);
+                        let _ = run_once(&c, true);
+                    }
+                });
+                while !started.load(Ordering::Relaxed) {
+                    std::thread::yield_now();
+                }
+                std::thread::sleep(std::time::Duration::from_millis(30));
+                let r = run_once(&cfg, true);
+                stop2.store(true, Ordering::Relaxed);
+                let _ = h.join();
+                rep.count("progress_mode_with_concurrent_run_progress");
+                r
+            }
+            _ => {
+                let pool = rayon::ThreadPoolBuilder::new().num_threads(1 + (case as usize / 12) % 2).build().unwrap();
+                rep.count("progress_mode_inside_small_pool");
+                pool.install(|| run_once(&cfg, true))
+            }
+        };
+        match (expect, prog) {
             (Ok(e), Ok(p)) if e == p => {
                 rep.held();
                 rep.count("progress_mode_compared");
